@@ -149,9 +149,10 @@ type fileSpec struct {
 }
 
 type memFS struct {
-	mu    sync.Mutex
-	files map[string]fileSpec
-	opens []string
+	mu        sync.Mutex
+	files     map[string]fileSpec
+	opens     []string
+	openDelay time.Duration // a slow file system (set before use)
 }
 
 func newMemFS() *memFS { return &memFS{files: map[string]fileSpec{}} }
@@ -165,6 +166,9 @@ func (m *memFS) Open(name string) (fs.File, error) {
 	s, ok := m.files[name]
 	m.opens = append(m.opens, name)
 	m.mu.Unlock()
+	if m.openDelay > 0 {
+		time.Sleep(m.openDelay)
+	}
 	if !ok || s.Kind == "missing" {
 		return nil, &fs.PathError{Op: "open", Path: name, Err: fs.ErrNotExist}
 	}
@@ -452,7 +456,71 @@ func genC05(r *vh.Runner) {
 	genC05E2E(r)
 }
 
+// concurrentAuthorize: several look-ups for one user's file at the same
+// moment, some with a listed key and some with keys that are not listed (the
+// file system is slow to open, so that they overlap): each caller gets the
+// verdict for its own key.
+func concurrentAuthorize(r *vh.Runner, batches int) {
+	for b := 0; b < batches; b++ {
+		r.Case(fmt.Sprintf("concurrent-authorize/%d", b), map[string]any{"batch": b}, func(c *vh.Case) {
+			srv, err := hopserver.NewHopServerExt(nil, &config.ServerConfig{}, nil)
+			if err != nil {
+				c.Inconclusive(err.Error())
+				return
+			}
+			rng := vh.NewRand(r.Seed, "c05-conc", b)
+			for round := 0; round < 150 && !c.Violated(); round++ {
+				var listed keys.DHPublicKey
+				rng.Fill(listed[:])
+				fsys := newMemFS()
+				fsys.openDelay = time.Duration(rng.Pick(0, 20, 100, 400)) * time.Microsecond
+				user := knownUsers[rng.Intn(len(knownUsers))]
+				fsys.set(akPath(user), fileSpec{Kind: "file", Data: []byte(listed.String() + "\n")})
+				srv.VerifSetFS(fsys)
+				workers := 2 + rng.Intn(4)
+				ks := make([]keys.DHPublicKey, workers)
+				for w := range ks {
+					if w%2 == 0 {
+						ks[w] = listed
+					} else {
+						rng.Fill(ks[w][:])
+					}
+				}
+				errs := make([]error, workers)
+				var start, done sync.WaitGroup
+				start.Add(1)
+				for w := 0; w < workers; w++ {
+					done.Add(1)
+					go func() {
+						defer done.Done()
+						start.Wait()
+						if w%2 == 1 {
+							time.Sleep(time.Duration(w) * fsys.openDelay / 4)
+						}
+						errs[w] = srv.AuthorizeKey(user, ks[w])
+					}()
+				}
+				start.Done()
+				done.Wait()
+				r.Count("evaluations", int64(workers))
+				r.Count("concurrent_authorize_calls", int64(workers))
+				for w, e := range errs {
+					if w%2 == 1 && e == nil {
+						c.Violate("C05:authorize-key-succeeds:key-not-listed:concurrent-lookups", map[string]any{"round": round, "workers": workers, "caller": w, "open_delay": fsys.openDelay.String()})
+						break
+					}
+					if w%2 == 0 && e != nil {
+						r.Count("listed_key_refused_under_concurrent_lookups_not_judged", 1) // the statement only says when access may be given
+					}
+				}
+			}
+			r.Nontrivial(fmt.Sprintf("concurrent-authorize|%d", b))
+		})
+	}
+}
+
 func genC05Func(r *vh.Runner) {
+	concurrentAuthorize(r, r.Pick(6, 200))
 	srv, err := hopserver.NewHopServerExt(nil, &config.ServerConfig{}, nil)
 	if err != nil {
 		panic(err)
